@@ -8,6 +8,7 @@
       if handler.initial_delay is not None: sleep(initial_delay)
       state = fresh
       while not stopper.is_set():
+          await asyncio.sleep(0)                                      # zero-time yield to the event loop (no effect on the schedule)
           if state.done and not state.counts.failure: state = fresh  # success only; a failed state is kept
           if handler.idle is not None:
               while clock() - memory.idle_reset_time < handler.idle:  # the idle gate
@@ -405,13 +406,13 @@ def pollDelay (a : GateAtoms) : Int := a.idle
 
 /-- The statement skeleton of `_timer` the model is written against. -/
 inductive Step where
-  | initialDelay | freshState | resetUnlessFailed | idleGate | stampStart | execute | withOutcomes
+  | initialDelay | freshState | yieldToLoop | resetUnlessFailed | idleGate | stampStart | execute | withOutcomes
   | deliver | patch | rebindPatch | post
   deriving DecidableEq, Repr
 
 def prologue : List Step := [.initialDelay, .freshState]
 def loopBody : List Step :=
-  [.resetUnlessFailed, .idleGate, .stampStart, .execute, .withOutcomes, .deliver, .patch, .rebindPatch, .post]
+  [.yieldToLoop, .resetUnlessFailed, .idleGate, .stampStart, .execute, .withOutcomes, .deliver, .patch, .rebindPatch, .post]
 
 /-- The loops of `_timer` whose condition carries `not stopper.is_set()` (all of them). -/
 inductive LoopId where
